@@ -100,7 +100,7 @@ func compareBackends(c *run.Ctx, o *ProgObs) {
 				c.Violation("backend-value", fmt.Sprintf("%s=%s but %s=%s :: %s", baseName, ref.Dump(base.RV), name, ref.Dump(b.RV), short(o.Case.Src)), o.witness())
 			}
 		}
-		if !sameTrace(base.Res.Obs.Trace, b.Res.Obs.Trace) {
+		if base.Res.Obs != nil && b.Res.Obs != nil && !sameTrace(base.Res.Obs.Trace, b.Res.Obs.Trace) {
 			c.Violation("backend-trace", fmt.Sprintf("host-call trace differs: %s [%s] vs %s [%s] :: %s", baseName, traceStr(base.Res.Obs.Trace), name, traceStr(b.Res.Obs.Trace), short(o.Case.Src)), o.witness())
 		}
 	}
